@@ -286,12 +286,12 @@ class TokEncoder:
     def write_float(self, datum):
         if not isinstance(datum, (int, float)):
             raise struct.error("required argument is not a float")
-        self._fo.put(("float", datum))
+        self._fo.put(("float", float(datum)))  # struct.pack converts an int to a float
 
     def write_double(self, datum):
         if not isinstance(datum, (int, float)):
             raise struct.error("required argument is not a float")
-        self._fo.put(("double", datum))
+        self._fo.put(("double", float(datum)))
 
     def write_bytes(self, datum):
         n = len(datum)
